@@ -197,8 +197,8 @@ class Rule_ST02(BaseRule):
                 if child.is_type("expression"):
                     return None
 
-            # Can't fix if multiple WHEN clauses.
-            if len(when_clauses) > 1:
+            # Can't fix if multiple WHEN clauses (or none at all).
+            if len(when_clauses) != 1:
                 return None
 
             # Find condition and then expressions.
